@@ -53,6 +53,7 @@ class KernelBuild:
         self.defines = []
         self.native_data = []  # descriptions of natively generated data
         self.contracts = None
+        self.nloops = {}
 
     def add(self, text):
         self.parts.append(text)
@@ -62,10 +63,12 @@ class KernelBuild:
             self.rules_fired[k] = self.rules_fired.get(k, 0) + v
         rules.fired = {}
 
-    def emit_function(self, csig, slice_, rules, fn_clauses, loop_clauses, cname, pre_rules=None, post=None,
-                      wrap_body=None):
+    def emit_function(self, csig, slice_, rules, fn_clauses, loop_clauses, cname, pre=None, post=None,
+                      wrap_body=None, ghost=()):
         """csig: C signature text 'ret name(params)'.  Body comes from the slice."""
         body = chai2c.eval_preproc(slice_.body, DEFINED)
+        if pre:
+            body = pre(body)
         body = rules.apply(body, ctx=cname)
         self.note_rules(rules)
         if post:
@@ -75,6 +78,9 @@ class KernelBuild:
         for n, cls in loop_clauses.items():
             lc[n] = "\n".join(_clause_line(cname, "loop%d" % n, i, c, t) for i, (c, t) in enumerate(cls))
         body = chai2c.splice_loop_contracts(body, lc, ctx=cname)
+        self.nloops[cname] = len(lc)
+        if ghost:
+            body = "\n#ifdef VERIF_CBMC\n" + "\n".join("/*ghost*/ " + g for g in ghost) + "\n#endif\n" + body
         if wrap_body:
             body = wrap_body(body)
         head = csig + "\n" + "\n".join(_clause_line(cname, "fn", i, c, t) for i, (c, t) in enumerate(fn_clauses))
